@@ -272,6 +272,13 @@ func x2Configs(prop, tier string) []*X2Config {
 				AdvSteps: []time.Duration{2 * time.Second, 4 * time.Second}, Props: props("C11persist")})
 		}
 	}
+	if prop == "C11" {
+		// the store after a save, also when the save purges the last jobs (their pipeline was dropped by a reload)
+		with := mkDefs(map[string]PipeCfg{"p": {Conc: 1, QL: -1, Graph: graphOne}, "z": {Conc: 1, QL: -1, Graph: graphOne}})
+		without := mkDefs(map[string]PipeCfg{"z": {Conc: 1, QL: -1, Graph: graphOne}})
+		res = append(res, &X2Config{Name: "C11/store-after-save/pipeline-dropped", DefsOverride: []*definitionPipelinesDef{with, without}, Pipes: []string{"p"},
+			Depth: depth(5, 6), Cancel: true, FailOK: true, Reload: true, Save: true, Symmetry: false, Props: props("C11store")})
+	}
 	if prop == "C12" {
 		res = c12Configs(tier)
 	}
